@@ -53,6 +53,9 @@ class Workload(object):
 
         self.kind, self.pool_size, self.family = kind, pool_size, family
         self.log = []
+        self.threads_before = set(threading.enumerate())
+        self.notif_pool = None
+        self.notif_workers = []
         self.lock = threading.Lock()
         self.pool = None
         self.path = None
@@ -86,6 +89,8 @@ class Workload(object):
         def mark(t):
             with self.lock:
                 self.log.append(("mark", t))
+                if self.notif_pool is not None:
+                    self.notif_workers.append(threading.current_thread())
 
         self.executing = [0]
 
@@ -125,7 +130,9 @@ class Workload(object):
         """The README set-up: a second, independent pool that runs the notifications"""
         from jsonrpclib.threadpool import ThreadPool
         self.notif_pool = ThreadPool(2, 1, logname="c12-notif")
+        before = set(threading.enumerate())
         self.notif_pool.start()
+        self.notif_workers = [t for t in threading.enumerate() if t not in before]
         self.server.set_notification_pool(self.notif_pool)
 
     def stop_notification_pool(self):
@@ -133,10 +140,13 @@ class Workload(object):
         if self.notif_pool is None:
             return
         pool, self.notif_pool = self.notif_pool, None
-        workers = list(pool._threads)
-        if not workers or not all(t.is_alive() for t in workers[:1]):
-            fail("C12/other-pool-disturbed", "stopping the server made the independent notification pool lose its workers (%d known, alive: %r)" % (
-                len(workers), [t.is_alive() for t in workers]))
+        # the independent pool is still in working order: it runs a task handed to it now
+        try:
+            answer = pool.enqueue(lambda: 42).result(10)
+        except Exception as ex:
+            answer = ex
+        if answer != 42:
+            fail("C12/other-pool-disturbed", "after the server was stopped, its independent notification pool no longer runs tasks: %r" % (answer,))
         try:
             call_with_watchdog(pool.stop, 10, "stopping the notification pool")
         except Hang:
@@ -147,7 +157,16 @@ class Workload(object):
         self.thread.start()
 
     def request_pool(self):
-        return getattr(self.server, "_PooledJSONRPCServer__request_pool", None)
+        """The pool the pooled server hands its requests to: whatever attribute holds it"""
+        from jsonrpclib.threadpool import ThreadPool
+        if self.kind != "pooled":
+            return None
+        if self.pool is not None:
+            return self.pool
+        for v in vars(self.server).values():
+            if isinstance(v, ThreadPool) and v is not self.notif_pool:
+                return v
+        return None
 
 
 def serving_threads():
@@ -180,7 +199,12 @@ def stop_server(w, served, label):
 
     raised = []
     pool0 = w.request_pool()
-    workers_before = list(pool0._threads) if pool0 is not None else []
+    # the workers of the request pool: the threads that are neither the harness' own nor older than the server
+    # (threads of the independent notification pool are known by what they ran, by the snapshot taken when it
+    # was started, and by the name the library derives from the logger name it was given)
+    mine = set(getattr(w, "notif_workers", []) or [])
+    workers_before = [t for t in threading.enumerate() if t not in w.threads_before and t is not w.thread and t not in mine
+                      and t is not threading.current_thread() and not t.name.startswith(("c12-client", "watchdog", "c12-notif"))] if pool0 is not None else []
 
     def closing():
         try:
@@ -224,7 +248,7 @@ def stop_server(w, served, label):
         while time.time() < deadline and any(t.is_alive() for t in workers):
             time.sleep(0.005)
         alive = [t.name for t in workers if t.is_alive()]
-        if alive or not pool._done_event.is_set():
+        if alive:
             fail("C12/pool-workers-alive", "request-pool workers still alive after server_close() returned: %r (%d requests were still being executed)" % (alive, executing))
 
 
@@ -414,7 +438,7 @@ def oracle_workload(case):
         w.add_notification_pool()
     w.serve()
     errors, sent_marks, sent_echo, sent_boom = [], [], [], []
-    threads = [threading.Thread(target=client_run, args=(w, i, kinds, errors, sent_marks, sent_echo, 30, sent_boom), daemon=True)
+    threads = [threading.Thread(target=client_run, args=(w, i, kinds, errors, sent_marks, sent_echo, 30, sent_boom), daemon=True, name="c12-client-%d" % i)
                for i, kinds in enumerate(case["clients"])]
     for t in threads:
         t.start()
@@ -554,7 +578,7 @@ def oracle_lifecycle(case):
         def handle():
             for _ in range(n):
                 w.server.handle_request()
-        t = threading.Thread(target=handle, daemon=True)
+        t = threading.Thread(target=handle, daemon=True, name="c12-client-handle")
         t.start()
         # one connection per request: close the proxy after each call
         for i in range(n):
@@ -587,7 +611,7 @@ def oracle_lifecycle(case):
                     p("close")()
                 except Exception:
                     pass
-        ts = [threading.Thread(target=slow_client, args=(i,), daemon=True) for i in range(case["n"])]
+        ts = [threading.Thread(target=slow_client, args=(i,), daemon=True, name="c12-client-slow-%d" % i) for i in range(case["n"])]
         for t in ts:
             t.start()
         # wait until at least one request is being executed
